@@ -42,9 +42,78 @@ def time_tasks(u):
                   reach=[("true", "r"), ("false", "!r")]))
     return T
 
+
+WD_ALIASES = {"FN_new_watchdog_event": r"Watchdog::new_watchdog_event\(", "FN_remove_watchdog_event": r"Watchdog::remove_watchdog_event\(",
+              "FN_handle_timeout": r"Watchdog::handle_timeout\("}
+def wd_unit():
+    # the REAL source file of the library
+    return Unit("C19", "watchdog_cc", REPO + "/src/Watchdog.cc", roots="re:^_ZN23Parma_Polyhedra_Library8Watchdog", cut=["re:throw_syscall_error"],
+                aliases=WD_ALIASES, stubs=["common.c", "c19_sys.c"])
+
+WD_BOUND = {"unwind": 7, "note": "pending list: at most 3 active elements and 1 free element (arbitrary contents); loops unwound to that length with unwinding assertions"}
+def wd_state_vars():
+    return [Var("TIME_T", "d0"), Var("TIME_T", "d1"), Var("TIME_T", "d2"), Var("TIME_T", "fdl"),
+            Var("TIME_T", "tsf"), Var("TIME_T", "last"), Var("uint64_t", "rem_s"), Var("uint64_t", "rem_us"),
+            Var("int64_t", "now_s"), Var("int64_t", "now_us"), Var("_Bool", "crit")]
+def wd_setup(n, m):
+    return """  G_e[0].f1 = d0; G_e[1].f1 = d1; G_e[2].f1 = d2; G_f[0].f1 = fdl;
+  wd_build(%d, %d);
+  S_time_so_far = tsf; S_last_req = last; G_rem_s = rem_s; G_rem_us = rem_us; G_now_s = now_s; G_now_us = now_us; S_in_critical = crit;""" % (n, m)
+
+def wd_tasks(u, N):
+    """the list shape (n active, m free elements, the element operated on) is fixed per task -- the cases are exhaustive
+       for lists of at most N elements -- while deadlines, clock values and timer readings are arbitrary"""
+    H = ["C19/watchdog.h"]; D = {"WD_N": 3}
+    bound = {"unwind": 7, "note": "pending list: at most %d active elements and 1 free element, one task per list shape; deadlines, clocks and timer readings arbitrary; loops unwound to that length with unwinding assertions" % N}
+    T = []
+    kw = dict(bounded=bound, timeout=1800, object_bits=8, defs=D, split_post=True)
+    for n in range(0, N):
+        for m in (0, 1):
+            T.append(Task("watchdog/new_watchdog_event/n%dm%d" % (n, m), u, "FN_new_watchdog_event", H, wd_state_vars() + [Var("uint64_t", "csecs")],
+                          "DLO_T *pos = FN_new_watchdog_event(csecs, &G_h[WD_N], &G_flag[WD_N])", harness_pre=wd_setup(n, m),
+                          reach=([("new front re-arms", "pos == A_SENT->f0"), ("not at front", "pos != A_SENT->f0")] if n >= 1 else []), **kw))
+    for n in range(1, N + 1):
+        for k in range(n):
+            T.append(Task("watchdog/remove_watchdog_event/n%dk%d" % (n, k), u, "FN_remove_watchdog_event", H, wd_state_vars(),
+                          "FN_remove_watchdog_event(0, &G_e[G_k].f0)", harness_pre=wd_setup(n, 0) + "\n  G_k = %d;" % k,
+                          reach=([("successor in the same second", "d0.f0 == d1.f0 && d0.f1 != d1.f1")] if (k == 0 and n >= 2) else []), **kw))
+    for n in range(1, N + 1):
+        T.append(Task("watchdog/handle_timeout/n%d" % n, u, "FN_handle_timeout", H, wd_state_vars(),
+                      "FN_handle_timeout(27)", harness_pre=wd_setup(n, 0),
+                      reach=([("only the first due", "G_nfired == 1"), ("all due", "G_nfired == %d" % n)] if n >= 2 else []), **kw))
+    return T
+
+def tw_unit():
+    return Unit("C19", "threshold", "units/C19/threshold.cc", roots="re:^w_", stubs=["common.c", "c19_new.c"])
+
+def tw_vars(): return [Var("uint64_t", "d0"), Var("uint64_t", "d1"), Var("uint64_t", "d2"), Var("uint64_t", "fd"), Var("uint64_t", "w"), Var("uint64_t", "base")]
+def tw_setup(n, m):
+    return """  G_e[0].f1 = d0; G_e[1].f1 = d1; G_e[2].f1 = d2; G_f[0].f1 = fd; G_base = base;
+  tw_build(%d, %d);
+  S_weight = w;""" % (n, m)
+
+def tw_tasks(u, N):
+    H = ["C19/threshold.h"]
+    bound = {"unwind": 7, "note": "pending list of at most %d thresholds and 1 free element, one task per list shape; thresholds and weight arbitrary within a 2^62 window" % N}
+    kw = dict(bounded=bound, timeout=1800, object_bits=8, split_post=True)
+    T = []
+    for n in range(0, N):
+        for m in (0, 1):
+            T.append(Task("weightwatch/add_threshold/n%dm%d" % (n, m), u, "FN_add_threshold", H, tw_vars() + [Var("uint64_t", "t")],
+                          "DLO_T *pos = FN_add_threshold(t, &G_h[TW_N], &G_flag[TW_N])", harness_pre=tw_setup(n, m),
+                          reach=([("at front", "pos == A_SENT->f0"), ("not at front", "pos != A_SENT->f0")] if n >= 1 else []), **kw))
+    for n in range(1, N + 1):
+        for k in range(n):
+            T.append(Task("weightwatch/remove_threshold/n%dk%d" % (n, k), u, "FN_remove_threshold", H, tw_vars(),
+                          "FN_remove_threshold(&G_e[G_k].f0)", harness_pre=tw_setup(n, 0) + "\n  G_k = %d;" % k, **kw))
+    for n in range(1, N + 1):
+        T.append(Task("weightwatch/check/n%d" % n, u, "FN_check", H, tw_vars(), "FN_check()", harness_pre=tw_setup(n, 0),
+                      reach=[("something fires", "G_nfired >= 1"), ("nothing fires", "G_nfired == 0")] + ([("all fire", "G_nfired == %d" % n)] if n >= 2 else []), **kw))
+    return T
+
 def build(tier):
-    u = time_unit()
-    return [u], time_tasks(u)
+    u = time_unit(); w = wd_unit(); tw = tw_unit(); N = 2 if tier == 'quick' else 3
+    return [u, w, tw], time_tasks(u) + wd_tasks(w, N) + tw_tasks(tw, N)
 
 def main(tier, only=None):
     units, tasks = build(tier)
